@@ -9,7 +9,7 @@ GEN_MODULES = ["Constants"]
 CORRESPONDENCE_OPS = ["treev", "prims:etree", "prims:dom"]
 SOURCES = ["html5lib/treebuilders/etree.py", "html5lib/treebuilders/dom.py", "html5lib/treebuilders/base.py",
            "html5lib/treebuilders/__init__.py"]
-LEVEL = "translation_validation"
+LEVEL = "proof"
 TRUSTED = ["H5.Model.Dom: one arena model of the node primitives with the intended common semantics (adjacent text merged), "
            "tied to BOTH real back ends through the tree correspondence",
            "H5.Model.Backend.ETree / H5.Model.Backend.MiniDom: hand models of treebuilders/etree.py over ElementTree and of "
